@@ -97,4 +97,12 @@ CHECKS = {
         note=COMMON_NOTE,
         technique="TLA+ operator semantics + TLC BFS case enumeration, replayed into operator API and Model.Run",
         design_ref="DESIGN.md section 6 (C11)"),
+    "C05": dict(
+        text="Bounded-exhaustive: TLC enumerates 1-D and 2-D group-1 convolution geometries (non-square images and kernels, anisotropic "
+             "strides and dilations, asymmetric pads, the four auto_pad modes, batch/channel/kernel counts, with and without bias) and "
+             "computes the ONNX output shape and the direct-sum value of every output element from spec/OpConv.tla on distinct integer "
+             "ids; exact comparison in three execution modes (the initializer mode run twice also exposes in-place bias changes).",
+        note=COMMON_NOTE,
+        technique="TLA+ operator semantics + TLC BFS case enumeration, replayed into operator API and Model.Run; defect model for the known finding",
+        design_ref="DESIGN.md section 6 (C05)"),
 }
